@@ -976,6 +976,59 @@ def _real_alloc_after_fork(method):
             p.join()
 
 
+def _real_alloc_after_os_fork(method):
+    """The same with a child made by a bare ``os.fork()`` (a daemonising
+    application, a third-party library): none of billiard's after-fork
+    hooks run there, the allocator itself has to notice the new process."""
+    ctx = billiard.get_context('fork')
+    first = ctx.Value('i', 1)            # a partly used arena exists
+    r1, w1 = os.pipe()
+    r2, w2 = os.pipe()
+    pid = os.fork()
+    if pid == 0:
+        code = 1
+        try:
+            os.close(r1)
+            os.close(w2)
+            c = ctx.Value('i', 111)
+            os.write(w1, b'm')
+            os.read(r2, 1)               # parent has allocated and written
+            still = c.value == 111
+            c.value = 333
+            os.write(w1, b'1' if still else b'0')
+            os.read(r2, 1)
+            code = 0
+        finally:
+            os._exit(code)
+    os.close(w1)
+    os.close(r2)
+    try:
+        if os.read(r1, 1) != b'm':
+            return 'violation', 'os.fork child could not create a Value'
+        mine = ctx.Value('i', 222)
+        mine.value = 0x7777
+        os.write(w2, b'g')
+        ans = os.read(r1, 1)
+        if ans != b'1':
+            return 'violation', ('an object created in the parent after a '
+                                 'bare os.fork() overwrote the object the '
+                                 'child had created (child says %r)' % (ans,))
+        if mine.value != 0x7777 or first.value != 1:
+            return 'violation', ('the write of a bare os.fork() child to its '
+                                 'own new object changed the parent\'s '
+                                 'objects: %r %r' % (mine.value, first.value))
+        os.write(w2, b'b')
+        return 'ok', 'alloc-after-os-fork'
+    finally:
+        os.close(r1)
+        os.close(w2)
+        try:
+            os.kill(pid, 9)
+        except OSError:
+            pass
+        os.waitpid(pid, 0)
+
+
 def _locked_child(v, conn):
     try:
         got = v.get_lock().acquire(False)
@@ -1022,6 +1075,8 @@ def real_main():
                 status, detail = _real_alloc_after_fork(method)
             elif name == '@locked':
                 status, detail = _real_fork_while_locked(method)
+            elif name == '@osfork':
+                status, detail = _real_alloc_after_os_fork(method)
             else:
                 status, detail = _real_case(method, name)
         except Exception as exc:                    # noqa
@@ -1048,6 +1103,7 @@ def real_cells(tier):
     if 'fork' in real_methods():
         cells.append(('fork', '@alloc'))
         cells.append(('fork', '@locked'))
+        cells.append(('fork', '@osfork'))
     return cells
 
 
